@@ -104,7 +104,11 @@ class TimingGen:
         n = rng.randint(1, 5) if n is None else n
         result = []
         for _ in range(n):
-            if depth < 3 and rng.random() < 0.3:
+            if rng.random() < 0.02:
+                # a complete simulation (with simulations nested in it) run from inside this one
+                result.append({'op': 'nested', 'd': 1, 'start': rng.choice([0, 100]),
+                               'levels': rng.choice([1, 2, 3]), 'id': self.ident('n')})
+            elif depth < 3 and rng.random() < 0.3:
                 result.append(self.block(depth))
             else:
                 result.append({'op': 'wait', 'n': self.notif(), 'id': self.ident('w')})
